@@ -9,6 +9,8 @@ namespace Search
 
 variable {σ π : Type}
 
+attribute [local instance] trivialPsInv
+
 /-- `ch2` reproduces every run of `ch1` that ends within `N` nodes. -/
 def ABSim (N : Int) (ch1 ch2 : Child σ) : Prop :=
   ∀ a b d ply nt s, NM s (ch1 a b d ply nt s).2 ∧ ((ch1 a b d ply nt s).2.nodes ≤ N → ch2 a b d ply nt s = ch1 a b d ply nt s)
@@ -76,8 +78,18 @@ theorem abAfter_eq (c : Comp σ π) {L1 L2 : Limits} {N : Int} (h : SoftHard L1 
   simp only [abAfter, h.abort_eq]
 
 theorem abAfter_nm (c : Comp σ π) (L : Limits) (x : ABCtx) (m : Move) (r : Board.Reverse) (l : ABLoop π)
-    (value : Score) (s : St σ) : NM s (abAfter c L x m r l value s).2 :=
-  (abAfter_spec c L x m r l value s).1.nm
+    (value : Score) (s : St σ) : NM s (abAfter c L x m r l value s).2 := by
+  simp only [abAfter]
+  have hf : NM s (abort L (s.setBoard (s.board.undoMove m r)).pop).2 :=
+    (abort_frame L (s.setBoard (s.board.undoMove m r)).pop).mono.nm
+  generalize abort L (s.setBoard (s.board.undoMove m r)).pop = as at hf ⊢
+  split
+  · exact hf
+  · split
+    · split
+      · exact hf
+      · split <;> exact hf
+    · split <;> exact hf
 
 theorem abLoop_sim (c : Comp σ π) {L1 L2 : Limits} {N : Int} (h : SoftHard L1 L2 N) {ch1 ch2 : Child σ}
     (hc : ABSim N ch1 ch2) (x : ABCtx) :
